@@ -250,27 +250,44 @@ Print Assumptions class_reexport.
 (* Attributes of A's classes, read on an instance  x: C[ps]  (any chain of base classes, any parameters ps):
    a GROUND attribute or property that the lookup finds (no parametric constant of that name further up the chain,
    see the known finding generic-base-attribute-overridden-in-subclass) is emitted with its declared type. *)
-Theorem attr_ground_read : forall (arity : cid -> nat) (fuel : nat) (tbl : ctable) (c : cid) (ps : list ty) (name : N)
+Theorem attr_ground_read : forall (arity : cid -> nat) (fixed : bool) (fuel : nat) (tbl : ctable) (c : cid) (ps : list ty) (name : N)
                                   (k : cdecl) (kenv : list (list aval)) (t : ty),
   arity type_id = 1%nat -> arity tuple_id = 1%nat ->
   find_preload name (chain arity fuel tbl c (inst_env arity ps)) = None ->
   (find_first name (chain arity fuel tbl c (inst_env arity ps)) = Some (k, kenv, MConst (DGround t)) \/
    exists s, find_first name (chain arity fuel tbl c (inst_env arity ps)) = Some (k, kenv, MMethod KProperty [(s, DGround t)])) ->
   wf_top arity t = true ->
-  snd (read_emitted arity fuel tbl c ps name) = true /\
-  nf (def_ty (fst (read_emitted arity fuel tbl c ps name))) = nf t.
+  snd (read_emitted arity fixed fuel tbl c ps name) = true /\
+  nf (def_ty (fst (read_emitted arity fixed fuel tbl c ps name))) = nf t.
 Proof.
-  intros arity fuel tbl c ps name k kenv t H1 H2 Hpre Hfirst Hwf.
+  intros arity fixed fuel tbl c ps name k kenv t H1 H2 Hpre Hfirst Hwf.
   unfold read_emitted, attr_read. rewrite Hpre.
   destruct Hfirst as [-> | [s ->]]; exact (emitted_ground arity H1 H2 t Hwf).
 Qed.
 Print Assumptions attr_ground_read.
 
-(* A type parameter read at the top of an attribute ( x: T  declared in class k of the chain, T the i-th entry of
-   k's template): when the SHORT name of T does not resolve to a different parameter of the instance's own class
-   ([short_env ... = kenv], the monitored hypothesis; see the refutation below) the emitted type is the instance's
-   value for T: the declared type under the substitution. *)
+(* A type parameter read at the top of an attribute ( x: T  declared in a class of the chain, T the i-th entry of that
+   class's template), on a tree WITH fixes/C06-filter-var-full-name (attribute._filter_var resolves the type parameter
+   by its full name; model variant fixed = true): for every class table whose base-class arguments are type
+   parameters of the subclass or plain classes, every chain, every instance parameters ps: the emitted type is the
+   declared type under the substitution along the chain.  No hypothesis on TypeVar names is left. *)
 Theorem attr_typevar_read : forall (arity : cid -> nat) (fuel : nat) (tbl : ctable) (c : cid) (ps : list ty) (name : N)
+                                   (kps : list ty) (i : nat),
+  arity type_id = 1%nat -> arity tuple_id = 1%nat ->
+  simple_tbl tbl = true ->
+  tfind_preload name (tchain fuel tbl c ps) = Some (kps, DParam i) ->
+  wf_top arity (subst_ty kps (DParam i)) = true ->
+  snd (read_emitted arity true fuel tbl c ps name) = true /\
+  nf (def_ty (fst (read_emitted arity true fuel tbl c ps name))) = nf (subst_ty kps (DParam i)).
+Proof.
+  intros arity fuel tbl c ps name kps i H1 H2.
+  exact (attr_typevar_read_fixed_lemma arity H1 H2 fuel tbl c ps name kps i).
+Qed.
+Print Assumptions attr_typevar_read.
+
+(* The same read on a tree WITHOUT the fix (variant fixed = false: the SHORT name of T is looked up in the template of
+   the instance's own class first): holds only when the short name resolves to the right parameter. *)
+Theorem attr_typevar_read_before_fix : forall (arity : cid -> nat) (fuel : nat) (tbl : ctable) (c : cid) (ps : list ty) (name : N)
                                    (k : cdecl) (kenv : list (list aval)) (i : nat) (p : ty),
   arity type_id = 1%nat -> arity tuple_id = 1%nat ->
   find_preload name (chain arity fuel tbl c (inst_env arity ps)) = Some (k, kenv, DParam i) ->
@@ -279,33 +296,41 @@ Theorem attr_typevar_read : forall (arity : cid -> nat) (fuel : nat) (tbl : ctab
   (i < length (short_env (match find_class tbl c with Some k0 => k_template k0 | None => [] end) (inst_env arity ps) k kenv))%nat ->
   conv_var arity p <> [] -> existsb is_tpi (conv_var arity p) = false ->
   wf_top arity p = true ->
-  snd (read_emitted arity fuel tbl c ps name) = true /\
-  nf (def_ty (fst (read_emitted arity fuel tbl c ps name))) = nf p.
+  snd (read_emitted arity false fuel tbl c ps name) = true /\
+  nf (def_ty (fst (read_emitted arity false fuel tbl c ps name))) = nf p.
 Proof.
   intros arity fuel tbl c ps name k kenv i p H1 H2 Hpre Hnth Hlt Hne Htpi Hwf.
-  unfold read_emitted, attr_read. rewrite Hpre. unfold dvar_attr, dvar_gen, tpi.
+  unfold read_emitted, attr_read. rewrite Hpre. unfold top_env, dvar_attr, dvar_gen, tpi.
   rewrite (nth_indep _ [] ((fun vals => [VTParamInst vals]) [])) by (rewrite map_length; exact Hlt).
   rewrite (map_nth (fun vals => [VTParamInst vals])). rewrite Hnth.
   rewrite (filter_var_tpi_single _ Htpi Hne).
   exact (emitted_ground arity H1 H2 p Hwf).
 Qed.
-Print Assumptions attr_typevar_read.
+Print Assumptions attr_typevar_read_before_fix.
 
-(* The statement without the short-name hypothesis is REFUTED by the faithful model:
+(* Before the fix the statement without the short-name hypothesis is REFUTED by the faithful model:
      class C4(Generic[T, S]): m0: T        class C5(C4[int, T], Generic[T]): ...        g: C5[bytes]
    g.m0 is declared int (C4's T := int) and read as bytes: attribute._filter_var resolves the type parameter by its
    short name in the template of the INSTANCE's class, where T is C5's own parameter.  Reproduced on the real code
-   (known finding typevar-name-collision-base-attribute). *)
+   of an unfixed tree (known finding typevar-name-collision-base-attribute); the harness probes which variant the
+   tree implements. *)
 Definition ex_arity (c : cid) : nat := match c with 36%N => 2%nat | 37%N => 1%nat | _ => builtin_arity c end.
 Definition ex_tbl : ctable :=
   [ mkC 36 [1; 2] None [(100, MConst (DParam 0))];
     mkC 37 [1] (Some (36, [DGround (TClass 10); DParam 0])) [] ].
-Theorem attr_typevar_read_full_refuted :
+Theorem attr_typevar_read_before_fix_refuted :
+  simple_tbl ex_tbl = true /\
+  tfind_preload 100 (tchain 8 ex_tbl 37 [TClass 14]) = Some ([TClass 10; TClass 14], DParam 0) /\
   declared_attr 8 ex_tbl 37 [TClass 14] 100 = Some (TClass 10) /\
-  snd (read_emitted ex_arity 8 ex_tbl 37 [TClass 14] 100) = true /\
-  canon (def_ty (fst (read_emitted ex_arity 8 ex_tbl 37 [TClass 14] 100))) = TClass 14.
-Proof. vm_compute. auto. Qed.
-Print Assumptions attr_typevar_read_full_refuted.
+  snd (read_emitted ex_arity false 8 ex_tbl 37 [TClass 14] 100) = true /\
+  canon (def_ty (fst (read_emitted ex_arity false 8 ex_tbl 37 [TClass 14] 100))) = TClass 14.
+Proof. vm_compute. auto 6. Qed.
+Print Assumptions attr_typevar_read_before_fix_refuted.
+
+(* ... and after the fix the same witness yields the declared int *)
+Example ex_collision_fixed :
+  read_emitted ex_arity true 8 ex_tbl 37 [TClass 14] 100 = (DConst (TClass 10), true).
+Proof. reflexivity. Qed.
 
 (* ---- non-vacuity of the declaration theorems ---- *)
 
@@ -344,15 +369,15 @@ Example ex_overload :
 Proof. reflexivity. Qed.
 (* the chain of the refutation example, read through the method path (m(self) -> T would be int): ground attribute *)
 Example ex_attr_ground :
-  read_emitted ex_arity 8 [mkC 36 [1] None [(100, MConst (DGround (TGeneric 6 [TClass 11])))]; mkC 37 [] (Some (36, [DGround (TClass 10)])) []]
+  read_emitted ex_arity false 8 [mkC 36 [1] None [(100, MConst (DGround (TGeneric 6 [TClass 11])))]; mkC 37 [] (Some (36, [DGround (TClass 10)])) []]
                37 [] 100 = (DConst (TGeneric 6 [TClass 11]), true).
 Proof. reflexivity. Qed.
 (* x: T on C4[int, str] itself; list[T] nested (resolved by full name at output time); the view split of a method *)
 Example ex_attr_typevar :
-  read_emitted ex_arity 8 ex_tbl 36 [TClass 10; TClass 11] 100 = (DConst (TClass 10), true).
+  read_emitted ex_arity false 8 ex_tbl 36 [TClass 10; TClass 11] 100 = (DConst (TClass 10), true).
 Proof. reflexivity. Qed.
 Example ex_attr_nested_typevar :
-  read_emitted ex_arity 8 [mkC 36 [1; 2] None [(100, MConst (DGeneric 6 [DParam 1]))]] 36 [TClass 10; TUnion [TClass 11; TClass 2]] 100
+  read_emitted ex_arity false 8 [mkC 36 [1; 2] None [(100, MConst (DGeneric 6 [DParam 1]))]] 36 [TClass 10; TUnion [TClass 11; TClass 2]] 100
   = (DConst (TGeneric 6 [TUnion [TClass 11; TClass 2]]), true).
 Proof. reflexivity. Qed.
 Example ex_method_views :   (* def m(self) -> list[T] on C4[Optional[bytes], int]: one result per view, before Optimize *)
